@@ -40,8 +40,8 @@ StepConfigs == {c \in AllConfigs : c.a \in {"deque", "nbdeque", "lifo"} => c.w =
 LosslessConfigs == {c \in StepConfigs : c.buf = 0 /\ (c.a = "chan" \/ (c.a \in {"queue", "deque"} /\ c.n = 0))}
 OneConfig == {[a |-> "queue", n |-> 0, w |-> 1, par |-> FALSE, buf |-> 0]}
 
-VARIABLES cfg, sub, reading, backlog, atrisk, down, waits, recent, nmsg, hist
-vars == <<cfg, sub, reading, backlog, atrisk, down, waits, recent, nmsg, hist>>
+VARIABLES cfg, sub, reading, backlog, atrisk, changes, down, waits, recent, nmsg, hist
+vars == <<cfg, sub, reading, backlog, atrisk, changes, down, waits, recent, nmsg, hist>>
 
 \* edge coverage up to renaming of subscribers; message numbers and ids are irrelevant for enabling.  The
 \* configuration is not part of the view: scenarios are generated once and the check driver pairs each
@@ -51,12 +51,12 @@ Count(st) == Cardinality({s \in Subs : sub[s] = st})
 LastKind == IF recent = {} THEN "none" ELSE (CHOOSE r \in recent : \A q \in recent : q.id <= r.id).kind
 view == <<Count("on"), Count("off") > 0, Cardinality(reading) > 0,
           \E s \in Subs : sub[s] # "none" /\ s \notin reading, backlog,
-          \E s \in atrisk : sub[s] = "off", \E s \in atrisk : sub[s] = "on", down, waits > 0, LastKind>>
+          \E s \in atrisk : sub[s] = "off", \E s \in atrisk : sub[s] = "on", changes, down, waits > 0, LastKind>>
 
 Rec(op, a, n) == [op |-> op, a |-> a, n |-> n, w |-> 0, par |-> FALSE, buf |-> 0]
 
 Init == \E c \in Configs :
-          /\ cfg = c /\ sub = [s \in Subs |-> "none"] /\ reading = {} /\ backlog = 0 /\ atrisk = {}
+          /\ cfg = c /\ sub = [s \in Subs |-> "none"] /\ reading = {} /\ backlog = 0 /\ atrisk = {} /\ changes = "fresh"
           /\ down = "no" /\ waits = 0 /\ recent = {} /\ nmsg = 0
           /\ hist = <<[op |-> "new", a |-> c.a, n |-> c.n, w |-> c.w, par |-> c.par, buf |-> c.buf]>>
 
@@ -72,14 +72,23 @@ Holder(s) == sub[s] # "none"
 Slow == \E s \in Subs : Holder(s) /\ s \notin reading
 Drain(rd) == IF \E s \in Subs : Holder(s) /\ s \notin rd THEN backlog ELSE 0
 
+\* which kinds of membership change happened since the last publish (none yet: "fresh"): a dispatcher that
+\* keeps anything about the subscriber set across messages is exercised by publish-after-change scenarios
+Changed(k) == CASE changes = "fresh" -> "fresh"
+                [] changes = "none" -> k
+                [] changes = k -> k
+                [] OTHER -> "both"
+
 Subscribe(s, x) == /\ sub[s] = "none"
                    /\ sub' = IF x THEN sub ELSE [sub EXCEPT ![s] = "on"]
+                   /\ changes' = IF x THEN changes ELSE Changed("sub")
                    /\ Do(IF x THEN "xsub" ELSE "sub", s, 0)
                    /\ IF x THEN Forget ELSE Remember("sub")
                    /\ UNCHANGED <<cfg, reading, backlog, atrisk, down, waits, nmsg>>
 
 Unsubscribe(s, x) == /\ sub[s] = "on"
                      /\ sub' = [sub EXCEPT ![s] = "off"]
+                     /\ changes' = Changed("unsub")
                      /\ Do(IF x THEN "xunsub" ELSE "unsub", s, 0)
                      /\ IF x THEN Forget ELSE Remember("unsub")
                      /\ UNCHANGED <<cfg, reading, backlog, atrisk, down, waits, nmsg>>
@@ -88,15 +97,16 @@ ReadOn(s) == /\ Holder(s) /\ s \notin reading
              /\ reading' = reading \cup {s} /\ backlog' = Drain(reading \cup {s})
              /\ atrisk' = IF Drain(reading \cup {s}) = 0 THEN {} ELSE atrisk
              /\ Do("readon", s, 0) /\ Forget
-             /\ UNCHANGED <<cfg, sub, down, waits, nmsg>>
+             /\ UNCHANGED <<cfg, sub, changes, down, waits, nmsg>>
 
 ReadOff(s) == /\ s \in reading
               /\ reading' = reading \ {s}
               /\ Do("readoff", s, 0) /\ Forget
-              /\ UNCHANGED <<cfg, sub, backlog, atrisk, down, waits, nmsg>>
+              /\ UNCHANGED <<cfg, sub, backlog, atrisk, changes, down, waits, nmsg>>
 
 Publish(p, b, x) == /\ nmsg + b <= MaxMsgs
                     /\ nmsg' = nmsg + b
+                    /\ changes' = IF x THEN changes ELSE "none"
                     /\ backlog' = IF Slow /\ down = "no" THEN (IF backlog + b > 2 THEN 2 ELSE backlog + b) ELSE backlog
                     \* subscribers for which an accepted message may still be waiting behind a slow one
                     /\ atrisk' = IF Slow /\ down = "no" /\ ~x THEN atrisk \cup {s \in Subs : sub[s] = "on"} ELSE atrisk
@@ -106,25 +116,25 @@ Publish(p, b, x) == /\ nmsg + b <= MaxMsgs
 
 Stats(x) == /\ Do(IF x THEN "xstats" ELSE "stats", "", 0)
             /\ IF x THEN Forget ELSE Remember("stats")
-            /\ UNCHANGED <<cfg, sub, reading, backlog, atrisk, down, waits, nmsg>>
+            /\ UNCHANGED <<cfg, sub, reading, backlog, atrisk, changes, down, waits, nmsg>>
 
 Wait == /\ waits < 2 /\ waits' = waits + 1
         /\ Do("wait", "", 0) /\ Remember("wait")
-        /\ UNCHANGED <<cfg, sub, reading, backlog, atrisk, down, nmsg>>
+        /\ UNCHANGED <<cfg, sub, reading, backlog, atrisk, changes, down, nmsg>>
 
 Stop == /\ down # "stop" /\ down' = "stop" /\ backlog' = 0 /\ atrisk' = {}
         /\ Do("stop", "", 0) /\ Forget
-        /\ UNCHANGED <<cfg, sub, reading, waits, nmsg>>
+        /\ UNCHANGED <<cfg, sub, reading, changes, waits, nmsg>>
 
 CancelParent == /\ down = "no" /\ down' = "parent" /\ backlog' = 0 /\ atrisk' = {}
                 /\ Do("cancelparent", "", 0) /\ Forget
-                /\ UNCHANGED <<cfg, sub, reading, waits, nmsg>>
+                /\ UNCHANGED <<cfg, sub, reading, changes, waits, nmsg>>
 
 \* cancel the context of an earlier call (if that call has returned meanwhile this is a no-op)
 Cancel(r) == /\ r \in recent
              /\ recent' = {q \in recent : q.id >= Id - 3} \ {r}
              /\ Do("cancel", "", r.id)
-             /\ UNCHANGED <<cfg, sub, reading, backlog, atrisk, down, waits, nmsg>>
+             /\ UNCHANGED <<cfg, sub, reading, backlog, atrisk, changes, down, waits, nmsg>>
 
 Step == \/ \E s \in Subs, x \in BOOLEAN : Subscribe(s, x) \/ Unsubscribe(s, x)
         \/ \E s \in Subs : ReadOn(s) \/ ReadOff(s)
